@@ -351,7 +351,13 @@ func (db *TrieDB) unsubscribeAll(index map[string]map[string]*topicNode, clientI
 	}
 	for topicName, node := range index[clientID] {
 		delete(node.clients, clientID)
-		if len(node.clients) == 0 && len(node.children) == 0 {
+		for shareName, c := range node.shared {
+			delete(c, clientID)
+			if len(c) == 0 {
+				delete(node.shared, shareName)
+			}
+		}
+		if len(node.clients) == 0 && len(node.shared) == 0 && len(node.children) == 0 {
 			ss := strings.Split(topicName, "/")
 			delete(node.parent.children, ss[len(ss)-1])
 		}
